@@ -8,6 +8,11 @@
 From Coq Require Import Ascii String List Bool PArith NArith FMapPositive Lia.
 From PTBase Require Import Exn PyStr.
 From P Require Import Assoc.
+(** which variant of three methods the code under test has: generated on every run from the AST of t2grids.py
+    (tools/props/C08.py): [delete_rocktype_refuses] -- delete_rocktype raises when a block still uses the rock type;
+    [add_block_refuses] -- add_block raises when it would replace a different block that has connections;
+    [add_rocktype_relinks] -- add_rocktype gives the blocks that used the replaced rock type the new one *)
+From Gen Require Import GenFlags.
 Import ListNotations.
 Open Scope list_scope.
 
@@ -85,12 +90,17 @@ Definition cget (g : grid) (k : key2) : option id := aget key2_eqb (cdict g) k.
 
 (** ** rock types *)
 (** [add_rocktype(rt)] for an existing object [j] *)
+(** repaired variant of add_rocktype ([add_rocktype_relinks]): [for blk in self.blocklist: if blk.rocktype is old: blk.rocktype = new] *)
+Definition relink (g : grid) (old j : id) : grid :=
+  set_brock g (fold_left (fun m i => if Pos.eqb (fget 1%positive (brock g) i) old then fset m i j else m) (blist g) (brock g)).
+Definition relink_if (g : grid) (old j : id) : grid :=
+  if add_rocktype_relinks && negb (Pos.eqb old j) then relink g old j else g.
 Definition add_rocktype_obj (g : grid) (j : id) : res grid :=
   let n := rn g j in
   match rget g n with
   | Some old =>
       if mem old (rlist g)
-      then Ok (set_rdict (set_rlist g (lreplace (rlist g) old j)) (aset str_eqb (rdict g) n j))
+      then Ok (relink_if (set_rdict (set_rlist g (lreplace (rlist g) old j)) (aset str_eqb (rdict g) n j)) old j)
       else Raise ValueError                                   (* rocktypelist.index *)
   | None => Ok (set_rdict (set_rlist g (rlist g ++ [j])) (aset str_eqb (rdict g) n j))
   end.
@@ -99,19 +109,20 @@ Definition new_rock (g : grid) (n : str) : grid :=
   set_next (set_rname g (fset (rname g) (next g) n)) (Pos.succ (next g)).
 Definition add_rocktype (g : grid) (n : str) : res grid := add_rocktype_obj (new_rock g n) (next g).
 
+(** [rocktype_frequency(name) == 0] *)
+Definition rock_unused (g : grid) (n : str) : bool :=
+  negb (existsb (fun i => str_eqb (rn g (br g i)) n) (blist g)).
 Definition delete_rocktype (g : grid) (n : str) : res grid :=
   match rget g n with
   | None => Ok g
   | Some j =>
-      if mem j (rlist g)
+      if delete_rocktype_refuses && negb (rock_unused g n) then Raise PlainException    (* repaired variant: "... is used by blocks" *)
+      else if mem j (rlist g)
       then Ok (set_rlist (set_rdict g (adel str_eqb (rdict g) n)) (lremove (rlist g) j))
       else Raise ValueError                                   (* rocktypelist.remove *)
   end.
 Fixpoint delete_rocktypes (g : grid) (ns : list str) : res grid :=
   match ns with [] => Ok g | n :: r => do g1 <- delete_rocktype g n; delete_rocktypes g1 r end.
-(** [rocktype_frequency(name) == 0] *)
-Definition rock_unused (g : grid) (n : str) : bool :=
-  negb (existsb (fun i => str_eqb (rn g (br g i)) n) (blist g)).
 Definition clean_rocktypes (g : grid) : res grid :=
   delete_rocktypes g (map (rn g) (filter (fun j => rock_unused g (rn g j)) (rlist g))).
 
@@ -130,7 +141,9 @@ Definition add_block_obj (g : grid) (i : id) : res grid :=
   let n := bn g i in
   match bget g n with
   | Some old =>
-      if mem old (blist g)
+      if add_block_refuses && negb (Pos.eqb old i) && negb (match cn g old with [] => true | _ => false end)
+      then Raise PlainException                             (* repaired variant: "... is connected to other blocks and cannot be replaced" *)
+      else if mem old (blist g)
       then Ok (set_bdict (set_blist g (lreplace (blist g) old i)) (aset str_eqb (bdict g) n i))
       else Raise ValueError
   | None => Ok (set_bdict (set_blist g (blist g ++ [i])) (aset str_eqb (bdict g) n i))
